@@ -243,8 +243,8 @@ func cls(s string) string {
 // library's own size thresholds (block sub-division above 64*4096 cells, buffer
 // shifts above 10^6 corners, per-worker batches) are then reached by size, with
 // default constants.  The essentials item yield is thinned to every 257th item.
-func bigLattice(work *choice.Source, shape *simsolid.Shape, v *variant, lo, hi int) bool {
-	if !work.Chance(1, 16) {
+func bigLattice(work *choice.Source, shape *simsolid.Shape, v *variant, lo, hi int, force bool) bool {
+	if !force && !work.Chance(1, 16) {
 		return false
 	}
 	n := lo + work.Intn(hi-lo+1)
@@ -272,7 +272,7 @@ func runMC(r *runner, work *choice.Source, search bool) (fs []Finding) {
 	extra := uint64(pick(work, 0, 2, 5))
 	bigK := 2 + work.Intn(5)
 	salt := work.U64()
-	big := bigLattice(work, shape, &v, 64, 112)
+	big := bigLattice(work, shape, &v, 64, 112, false)
 	if big {
 		r.refKnobs = map[string]int{"cm.itemStride": 257}
 		r.st.probe("mc.big_lattice")
@@ -368,7 +368,7 @@ func mcFilter(s model3d.Solid, f func(*model3d.Rect) bool, delta float64, iters 
 	return model3d.MarchingCubesFilter(s, f, delta)
 }
 
-func runDC(r *runner, work *choice.Source, repair bool) (fs []Finding) {
+func runDC(r *runner, work *choice.Source, repair, forceBig bool) (fs []Finding) {
 	shape := simsolid.Gen(work, 3)
 	v := genVariant(work)
 	clip := work.Chance(1, 2)
@@ -389,7 +389,20 @@ func runDC(r *runner, work *choice.Source, repair bool) (fs []Finding) {
 		buf = 0
 	}
 	maxGos := work.Intn(10)
-	if oldNz := nz; bigLattice(work, shape, &v, 48, 80) {
+	if forceBig {
+		// the dedicated big-lattice kind: whole volume in one window most of the
+		// time, interior points collected, few enough workers that one worker
+		// handles thousands of active edges in a pass
+		interior = !work.Chance(1, 4)
+		if work.Chance(3, 4) {
+			buf = 0
+		}
+		v.Workers = 1 + work.Intn(6)
+		if maxGos > 6 {
+			maxGos = 0
+		}
+	}
+	if oldNz := nz; bigLattice(work, shape, &v, 48, 80, forceBig) {
 		nx = int(math.Round((hi[0]-lo[0]+2*shape.Delta)/shape.Delta)) + 1
 		ny = int(math.Round((hi[1]-lo[1]+2*shape.Delta)/shape.Delta)) + 1
 		nz = int(math.Round((hi[2]-lo[2]+2*shape.Delta)/shape.Delta)) + 1
@@ -665,7 +678,9 @@ func runRaster(r *runner, work *choice.Source) (fs []Finding) {
 	return
 }
 
-var Algos = []string{"mc", "mcsearch", "dc", "ms", "raster", "mc", "dc", "dcrepair"}
+var Algos = []string{"mc", "mcsearch", "dc", "ms", "raster", "mc", "dc", "dcrepair",
+	"mc", "mcsearch", "dc", "ms", "raster", "mc", "dc", "dcrepair",
+	"mc", "mcsearch", "dc", "ms", "raster", "mc", "dc", "dcbig"}
 
 func RunCase(t *testing.T, c *Case, work, sched *choice.Source, st *Stats) (fs []Finding) {
 	r := &runner{t: t, st: st, sched: sched}
@@ -679,9 +694,11 @@ func RunCase(t *testing.T, c *Case, work, sched *choice.Source, st *Stats) (fs [
 	case "mcsearch":
 		return runMC(r, work, true)
 	case "dc":
-		return runDC(r, work, false)
+		return runDC(r, work, false, false)
+	case "dcbig":
+		return runDC(r, work, false, true)
 	case "dcrepair":
-		return runDC(r, work, true)
+		return runDC(r, work, true, false)
 	case "ms":
 		return runMS(r, work)
 	case "raster":
